@@ -29,11 +29,12 @@ const (
 	SStruct
 	SOneOfScalars
 	SOneOfStructs
+	SNullable // (nullable SRC): element position only (array item, dict value); Elem is the inner type
 )
 
 var srcKindNames = map[SrcKind]string{SAny: "any", SBool: "bool", SString: "string", SConst: "const", SInt: "int",
 	SNum: "num", SEnumS: "enumS", SEnumI: "enumI", SArray: "array", SDict: "dict", SRef: "ref", SStruct: "struct",
-	SOneOfScalars: "oneOfScalars", SOneOfStructs: "oneOfStructs"}
+	SOneOfScalars: "oneOfScalars", SOneOfStructs: "oneOfStructs", SNullable: "nullable"}
 
 func (k SrcKind) String() string { return srcKindNames[k] }
 
@@ -162,6 +163,7 @@ func srcDateTime() *Src         { return &Src{Kind: SString, DateTime: true} }
 func srcConst(v JV) *Src        { return &Src{Kind: SConst, Const: v} }
 func srcArray(e *Src) *Src      { return &Src{Kind: SArray, Elem: e} }
 func srcDict(e *Src) *Src       { return &Src{Kind: SDict, Elem: e} }
+func srcNullable(e *Src) *Src   { return &Src{Kind: SNullable, Elem: e} }
 func srcRef(n string) *Src      { return &Src{Kind: SRef, Ref: n} }
 func srcEnumS(v ...string) *Src { return &Src{Kind: SEnumS, EnumS: v} }
 func srcEnumI(v ...int64) *Src  { return &Src{Kind: SEnumI, EnumI: v} }
@@ -268,6 +270,8 @@ func (s *Src) sexp() string {
 		return "(array " + s.Elem.sexp() + ")"
 	case SDict:
 		return "(dict " + s.Elem.sexp() + ")"
+	case SNullable:
+		return "(nullable " + s.Elem.sexp() + ")"
 	case SRef:
 		return "(ref " + virQuote(s.Ref) + ")"
 	case SStruct:
@@ -447,7 +451,7 @@ func srcFromNode(n *sexpNode) (*Src, error) {
 			s.EnumI = append(s.EnumI, v)
 		}
 		return s, nil
-	case "array", "dict":
+	case "array", "dict", "nullable":
 		if err := need(1); err != nil {
 			return nil, err
 		}
@@ -455,8 +459,11 @@ func srcFromNode(n *sexpNode) (*Src, error) {
 		if err != nil {
 			return nil, err
 		}
-		if n.head() == "array" {
+		switch n.head() {
+		case "array":
 			return srcArray(e), nil
+		case "nullable":
+			return srcNullable(e), nil
 		}
 		return srcDict(e), nil
 	case "ref":
@@ -586,6 +593,10 @@ func (d *Defs) walkTy(s *Src, defIdx int, f func(string)) {
 		f("dict")
 		f("dict.of." + s.Elem.Kind.String())
 		d.walkTy(s.Elem, defIdx, f)
+	case SNullable:
+		f("elem.nullable")
+		f("elem.nullable." + s.Elem.Kind.String())
+		d.walkTy(s.Elem, defIdx, f)
 	case SRef:
 		f("ref")
 		if t := d.lookup(s.Ref); t != nil {
@@ -696,7 +707,16 @@ func (d *Defs) wf() error {
 				return fmt.Errorf("dangling ref %q", s.Ref)
 			}
 		case SArray, SDict:
+			if s.Elem.Kind == SNullable {
+				switch s.Elem.Elem.Kind {
+				case SNullable, SAny, SArray, SDict, SOneOfScalars, SOneOfStructs:
+					return fmt.Errorf("nullable element of kind %s is not in the grammar", s.Elem.Elem.Kind)
+				}
+				return chk(s.Elem.Elem, false)
+			}
 			return chk(s.Elem, false)
+		case SNullable:
+			return fmt.Errorf("(nullable …) is only allowed as array item or dict value (use the field's nullable flag)")
 		case SStruct:
 			names := map[string]bool{}
 			for _, f := range s.Fields {
@@ -765,7 +785,15 @@ func (d *Defs) wf() error {
 	return nil
 }
 
-// resolve follows bare references.
+// unwrap looks through an element-level (nullable …) wrapper.
+func (s *Src) unwrap() (*Src, bool) {
+	if s != nil && s.Kind == SNullable {
+		return s.Elem, true
+	}
+	return s, false
+}
+
+// resolve follows bare references (it does NOT look through (nullable …), see unwrap).
 func (d *Defs) resolve(s *Src) *Src {
 	for n := 0; s != nil && s.Kind == SRef && n <= len(d.Items); n++ {
 		s = d.lookup(s.Ref)
